@@ -228,9 +228,9 @@ class Coordinate:
         if reverse:
             out = out[::-1]
 
-        if self.z:
+        if self.z is not None:
             out.append(self.z)
-        if self.m:
+        if self.m is not None:
             out.append(self.m)
         return tuple(out)
 
@@ -311,8 +311,8 @@ class Coordinate:
         if reverse:
             out = out[::-1]
 
-        if self.z:
+        if self.z is not None:
             out.append(str(self.z))
-        if self.m:
+        if self.m is not None:
             out.append(str(self.m))
         return tuple(out)
